@@ -69,7 +69,8 @@ enum Obs {
 #[inline]
 fn run(e: &ExpRestricted01, us: &[f64]) -> Obs {
     let mut t = Tape::units(us);
-    match catch(|| e.sample(&mut t)) {
+    // through the trait, as `rng.sample(&law)` and every code generic over Distribution<f64> reach it
+    match catch(|| <ExpRestricted01 as Distribution<f64>>::sample(e, &mut t)) {
         Ok(v) => Obs::Ret(t.pos, v),
         Err(m) => {
             if m.contains(BUDGET_MSG) {
@@ -499,8 +500,9 @@ fn law(a: &Args) {
             let mut rng = rand_xoshiro::Xoshiro256PlusPlus::seed_from_u64(seed.wrapping_mul(977).wrapping_add(i as u64));
             let mut xs: Vec<f64> = Vec::with_capacity(n);
             let mut out_of_range = 0u64;
-            for _ in 0..n {
-                let v = e.sample(&mut rng);
+            for k in 0..n {
+                // both ways of drawing: the method call the sketchers use and the generator-side call of the trait
+                let v = if k % 2 == 0 { e.sample(&mut rng) } else { rng.sample(&e) };
                 if !in_range(v) {
                     out_of_range += 1;
                 } else {
